@@ -135,6 +135,11 @@ def native_check(c, kwargs, extra_env=None):
         result = None
     if raised is not None:
         en = type(raised).__name__
+        if isinstance(raised, AttributeError) and "has no attribute" in str(raised) and any(
+                getattr(v, "__dict__", None) is not None and type(v).__module__.startswith("dendropy") for v in kwargs.values()):
+            # the harness built the receiver with __new__ and only the modelled attributes: an
+            # attribute outside the model is missing -- not a replay of the obligation
+            return None, "not replayable natively (object outside the modelled attributes: %s)" % raised
         if not raise_conds.get(en, False):
             failed.append("raised %s: %s" % (en, raised))
         return failed, "raised %r" % (raised,)
@@ -293,6 +298,8 @@ def build_inputs(suite, ex, inputs, model):
                         val = z3.is_true(model.eval(t, model_completion=True))
                     elif fld.kind == "real":
                         val = float(model.eval(t, model_completion=True).as_fraction())
+                    elif fld.kind == "str":
+                        val = _str_of(ex, model.eval(t, model_completion=True).as_long())
                     else:
                         continue
                 setattr(o, attr, val)
@@ -303,6 +310,13 @@ def build_inputs(suite, ex, inputs, model):
             desc[p] = "same object as an earlier argument"
         kw[p] = objs[k]
     return kw, desc
+
+
+def _str_of(ex, k):
+    for lit, i in ex.str_ids.items():
+        if i == k:
+            return lit
+    return "tok%d" % k
 
 
 def replay_generic(ctx, suite, c, ob, witness, bv_widths):
